@@ -12,16 +12,20 @@ looks at them (a property of call histories: not decided here), and through the 
                    stored into the packet's latency statistic (EbBufferHeaderType.n_tick_count).
              A clock-derived value in any other condition, member or call argument would make coding decisions depend on
              pacing and is reported.
+  C27.RECONEOS the order in which reconstructed pictures are delivered (and so which one an application sees last) is fixed under
+             the counter lock, not by which worker obtains a free recon buffer first - free buffers appear when the application
+             retrieves, i.e. at its pace (shared with C03.EOS link 5)
 """
 from engine.facts import is_lit, pstr, strip, callee_name, subexprs, fields_in, last_field, root_of, AnalysisBroken
 from engine.classes import Classes
 from rules.C20 import value_reads
+from rules.C03 import recon_eos_atomic
 
 PID = 'C27'
 
 META = {
     'technique': 'enumeration of clock reads + field/local taint of clock-derived values with classification of every use site (speed-control gate by control dependence and call-site intersection; bookkeeping idioms), over the encoder\'s run-time and API code',
-    'text': 'Decides one necessary condition of pacing independence: the wall clock cannot influence what is coded. Every clock read in encoder run-time code is enumerated and every value derived from it is shown to end in latency statistics or logging, or to be consumed only inside the speed-control path that runs when the user sets speed_control_flag. It does not decide the other channel through which pacing could matter - pool and queue occupancy as seen by the kernels (a property of call histories, model-checking territory) - nor progress / completion; the non-blocking nature of the polling API is decided under C14 rule 4/5.',
+    'text': 'Decides one necessary condition of pacing independence: the wall clock cannot influence what is coded. Every clock read in encoder run-time code is enumerated and every value derived from it is shown to end in latency statistics or logging, or to be consumed only inside the speed-control path that runs when the user sets speed_control_flag. Also decided: the delivery order of reconstructed pictures is fixed under the counter lock rather than by the availability of recon buffers (which follows the pace of the application). It does not decide the other channel through which pacing could matter - pool and queue occupancy as seen by the kernels (a property of call histories, model-checking territory) - nor progress / completion; the non-blocking nature of the polling API is decided under C14 rule 4/5.',
     'note': 'speed-control mode (speed_control_flag = 1) consults the clock by design; it is an exemption with that reason, not a finding: two 60-frame runs with and without CPU starvation gave identical output, so no failing history could be produced',
     'ref': 'DESIGN.md section 9.8',
 }
@@ -164,3 +168,6 @@ def run(P, rep, tier):
                 nuse += 1
                 rep.ob('C27.CLOCK', '%s/return' % f.name, f.name in ELAPSED, f.loc(ev), 'clock-derived value returned by %s' % f.name)
     rep.floor('C27.CLOCK', 6)
+    # delivery order of reconstructed pictures must not depend on when the application frees recon buffers
+    recon_eos_atomic(P, rep, 'C27.RECONEOS', 'recon_output')
+    rep.floor('C27.RECONEOS', 1)
